@@ -128,8 +128,20 @@ func specialYears() []int {
 func sweepYears(nRandom int) []int {
 	set := map[int]bool{}
 	if tier == "thorough" {
-		for y := 1; y <= 9998; y++ {
+		// every year for the cheap generators; for the expensive ones (whole fortune trees, 130 almanac attributes per day …) the
+		// special years plus every k-th year, the phase taken from the seed, so that a thorough run stays within tens of minutes and
+		// different seeds cover different years
+		stride := map[string]int{"gen-ec": 12, "gen-alm": 6, "gen-terms": 4, "gen-lunar": 4, "gen-week": 2}[curMode]
+		if stride == 0 {
+			stride = 1
+		}
+		for _, y := range specialYears() {
 			set[y] = true
+		}
+		for y := 1; y <= 9998; y++ {
+			if (int64(y)+seed)%int64(stride) == 0 {
+				set[y] = true
+			}
 		}
 	} else {
 		for _, y := range specialYears() {
